@@ -4,7 +4,1286 @@ import SodiumModel.Proofs.ByteDecide
 /-
   Helper lemmas for C15 (codecs).
 -/
-open Sodium Sodium.Model
+open Sodium Sodium.Model Sodium.Spec.Base64
 namespace Sodium
+
+/-! ### character tables (256-case kernel evaluation) -/
+
+set_option maxRecDepth 100000 in
+theorem hexPair_tbl : ∀ x : UInt8, hexPair x = [hexNibbleChar (x.toNat / 16), hexNibbleChar (x.toNat % 16)] := by
+  decide +kernel
+
+set_option maxRecDepth 100000 in
+theorem hexClassify_tbl : ∀ c : UInt8,
+    hexClassify c = match hexCharVal c with
+      | some n => (0xFF, UInt8.ofNat n)
+      | none => (0, 0) := by
+  decide +kernel
+
+set_option maxRecDepth 100000 in
+theorem b2c_tbl : ∀ y : UInt8, y.toNat < 64 → (b64_byte_to_char y.toUInt32).toUInt8 = sextetChar false y.toNat := by
+  decide +kernel
+set_option maxRecDepth 100000 in
+theorem b2cu_tbl : ∀ y : UInt8, y.toNat < 64 → (b64_byte_to_urlsafe_char y.toUInt32).toUInt8 = sextetChar true y.toNat := by
+  decide +kernel
+
+theorem u32_of_lt256 (x : UInt32) (h : x.toNat < 256) : x = (UInt8.ofNat x.toNat).toUInt32 := by
+  apply UInt32.toNat_inj.mp
+  simp
+  omega
+
+theorem encChar_tbl (v : UInt32) (x : UInt32) (hx : x.toNat < 64) :
+    encChar v x = sextetChar (isUrlsafe v) x.toNat := by
+  have hy : (UInt8.ofNat x.toNat).toNat = x.toNat := by simp; omega
+  rw [u32_of_lt256 x (by omega)]
+  unfold encChar
+  cases isUrlsafe v
+  · simp only [Bool.false_eq_true, if_false]
+    have := b2c_tbl (UInt8.ofNat x.toNat) (by omega)
+    simpa [hy] using this
+  · simp only [if_true]
+    have := b2cu_tbl (UInt8.ofNat x.toNat) (by omega)
+    simpa [hy] using this
+
+set_option maxRecDepth 100000 in
+theorem c2b_tbl : ∀ c : UInt8, b64_char_to_byte (charToU32 c) = match charSextet false c with
+      | some n => UInt32.ofNat n
+      | none => 0xFF := by
+  decide +kernel
+set_option maxRecDepth 100000 in
+theorem c2bu_tbl : ∀ c : UInt8, b64_urlsafe_char_to_byte (charToU32 c) = match charSextet true c with
+      | some n => UInt32.ofNat n
+      | none => 0xFF := by
+  decide +kernel
+
+theorem decChar_tbl (v : UInt32) (c : UInt8) :
+    decChar v c = match charSextet (isUrlsafe v) c with
+      | some n => UInt32.ofNat n
+      | none => 0xFF := by
+  unfold decChar
+  cases isUrlsafe v
+  · simpa using c2b_tbl c
+  · simpa using c2bu_tbl c
+
+/-! ### hex encoding, lengths -/
+
+theorem bin2hex_spec (hexMaxlen : UInt64) (bin : Bytes) (hlen : bin.length < 2 ^ 63 - 1) :
+    sodium_bin2hex hexMaxlen bin =
+      if hexMaxlen.toNat ≤ 2 * bin.length then .misuse else .ok (hexEncode bin ++ [0]) := by
+  have hfm : bin.flatMap hexPair = hexEncode bin := by
+    unfold hexEncode
+    congr 1
+    funext x
+    exact hexPair_tbl x
+  unfold sodium_bin2hex
+  simp only [hfm]
+  have h1 : (UInt64.ofNat bin.length).toNat = bin.length := by
+    simp; omega
+  have h2 : ¬ (UInt64.ofNat bin.length ≥ (0xFFFFFFFFFFFFFFFF : UInt64) / 2) := by
+    rw [ge_iff_le, UInt64.le_iff_toNat_le, h1]
+    simp; omega
+  have h3 : (hexMaxlen ≤ UInt64.ofNat bin.length * 2) ↔ hexMaxlen.toNat ≤ 2 * bin.length := by
+    rw [UInt64.le_iff_toNat_le, UInt64.toNat_mul, h1]
+    simp; omega
+  simp only [h2, h3, false_or]
+
+theorem b64Len_spec (v : UInt32) (n : Nat) : b64Len v n = encodedLen (!isNoPad v) n := by
+  unfold b64Len encodedLen
+  have hr : n - 3 * (n / 3) = n % 3 := by omega
+  simp only [hr]
+  have : n % 3 = 0 ∨ n % 3 = 1 ∨ n % 3 = 2 := by omega
+  rcases this with h | h | h <;> simp only [h] <;> cases isNoPad v <;> simp <;> omega
+
+theorem encode_len (us pad : Bool) (b : Bytes) : (encode us pad b).length = encodedLen pad b.length := by
+  fun_induction encode us pad b with
+  | case1 a b c rest ih =>
+    simp only [List.length_cons, ih]
+    unfold encodedLen
+    cases pad <;> simp <;> omega
+  | case2 a b => cases pad <;> simp [encodedLen]
+  | case3 a => cases pad <;> simp [encodedLen]
+  | case4 => cases pad <;> simp [encodedLen]
+
+
+/-! ### Base64 encoder -/
+
+theorem and63 (n : Nat) : n &&& 63 = n % 64 := Nat.and_two_pow_sub_one_eq_mod n 6
+
+/-- accumulator after absorbing one byte -/
+def accB (acc : UInt32) (b : UInt8) : UInt32 := (acc <<< 8) + b.toUInt32
+
+theorem accB_toNat (acc : UInt32) (b : UInt8) : (accB acc b).toNat = (acc.toNat * 256 + b.toNat) % 2 ^ 32 := by
+  have := b.toNat_lt
+  simp [accB, UInt32.toNat_add, UInt32.toNat_shiftLeft, Nat.shiftLeft_eq]
+
+theorem enc_s1 (acc : UInt32) (a : UInt8) :
+    (((accB acc a) >>> 2) &&& 0x3F).toNat = a.toNat / 4 := by
+  have := a.toNat_lt
+  simp [UInt32.toNat_shiftRight, Nat.shiftRight_eq_div_pow, accB_toNat, and63]
+  omega
+
+theorem enc_s2 (acc : UInt32) (a b : UInt8) :
+    (((accB (accB acc a) b) >>> 4) &&& 0x3F).toNat = (a.toNat % 4) * 16 + b.toNat / 16 := by
+  have := a.toNat_lt; have := b.toNat_lt
+  simp [UInt32.toNat_shiftRight, Nat.shiftRight_eq_div_pow, accB_toNat, and63]
+  omega
+
+theorem enc_s3 (acc : UInt32) (b c : UInt8) :
+    (((accB (accB acc b) c) >>> 6) &&& 0x3F).toNat = (b.toNat % 16) * 4 + c.toNat / 64 := by
+  have := c.toNat_lt; have := b.toNat_lt
+  simp [UInt32.toNat_shiftRight, Nat.shiftRight_eq_div_pow, accB_toNat, and63]
+  omega
+
+theorem enc_s4 (acc : UInt32) (c : UInt8) :
+    (((accB acc c) >>> 0) &&& 0x3F).toNat = c.toNat % 64 := by
+  have := c.toNat_lt
+  simp [accB_toNat, and63]
+  omega
+
+theorem enc_t1 (acc : UInt32) (a : UInt8) :
+    (((accB acc a) <<< 4) &&& 0x3F).toNat = (a.toNat % 4) * 16 := by
+  have := a.toNat_lt
+  simp [UInt32.toNat_shiftLeft, Nat.shiftLeft_eq, accB_toNat, and63]
+  omega
+
+theorem enc_t2 (acc : UInt32) (b : UInt8) :
+    (((accB acc b) <<< 2) &&& 0x3F).toNat = (b.toNat % 16) * 4 := by
+  have := b.toNat_lt
+  simp [UInt32.toNat_shiftLeft, Nat.shiftLeft_eq, accB_toNat, and63]
+  omega
+
+
+theorem accB_def (acc : UInt32) (b : UInt8) : (acc <<< 8) + b.toUInt32 = accB acc b := rfl
+theorem ofNat2 : UInt32.ofNat 2 = 2 := rfl
+theorem ofNat4 : UInt32.ofNat 4 = 4 := rfl
+
+theorem encDrain_8 (v acc) : encDrain v acc 8 = ([encChar v ((acc >>> 2) &&& 0x3F)], 2) := by
+  simp [encDrain]
+theorem encDrain_10 (v acc) : encDrain v acc 10 = ([encChar v ((acc >>> 4) &&& 0x3F)], 4) := by
+  simp [encDrain]
+theorem encDrain_12 (v acc) : encDrain v acc 12 =
+    ([encChar v ((acc >>> 6) &&& 0x3F), encChar v ((acc >>> 0) &&& 0x3F)], 0) := by
+  simp [encDrain]
+
+theorem encLoop_3 (v : UInt32) (a b c : UInt8) (rest : Bytes) (acc : UInt32) :
+    encLoop v (a :: b :: c :: rest) acc 0 =
+      sextetChar (isUrlsafe v) (a.toNat / 4) :: sextetChar (isUrlsafe v) ((a.toNat % 4) * 16 + b.toNat / 16) ::
+      sextetChar (isUrlsafe v) ((b.toNat % 16) * 4 + c.toNat / 64) :: sextetChar (isUrlsafe v) (c.toNat % 64) ::
+      encLoop v rest (accB (accB (accB acc a) b) c) 0 := by
+  have ha := a.toNat_lt; have hb := b.toNat_lt; have hc := c.toNat_lt
+  simp only [encLoop, accB_def, Nat.zero_add, encDrain_8, encDrain_10, encDrain_12,
+    Nat.reduceAdd, List.cons_append, List.nil_append]
+  rw [encChar_tbl _ _ (by rw [enc_s1]; omega), encChar_tbl _ _ (by rw [enc_s2]; omega),
+    encChar_tbl _ _ (by rw [enc_s3]; omega), encChar_tbl _ _ (by rw [enc_s4]; omega),
+    enc_s1, enc_s2, enc_s3, enc_s4]
+
+theorem encLoop_2 (v : UInt32) (a b : UInt8) (acc : UInt32) :
+    encLoop v [a, b] acc 0 =
+      [sextetChar (isUrlsafe v) (a.toNat / 4), sextetChar (isUrlsafe v) ((a.toNat % 4) * 16 + b.toNat / 16),
+       sextetChar (isUrlsafe v) ((b.toNat % 16) * 4)] := by
+  have ha := a.toNat_lt; have hb := b.toNat_lt
+  simp only [encLoop, accB_def, Nat.zero_add, encDrain_8, encDrain_10,
+    Nat.reduceAdd, List.cons_append, List.nil_append]
+  simp only [Nat.reduceSub, Nat.reduceGT, if_true, ofNat2]
+  rw [encChar_tbl _ _ (by rw [enc_s1]; omega), encChar_tbl _ _ (by rw [enc_s2]; omega),
+    encChar_tbl _ _ (by rw [enc_t2]; omega), enc_s1, enc_s2, enc_t2]
+
+theorem encLoop_1 (v : UInt32) (a : UInt8) (acc : UInt32) :
+    encLoop v [a] acc 0 =
+      [sextetChar (isUrlsafe v) (a.toNat / 4), sextetChar (isUrlsafe v) ((a.toNat % 4) * 16)] := by
+  have ha := a.toNat_lt
+  simp only [encLoop, accB_def, Nat.zero_add, encDrain_8, List.cons_append, List.nil_append]
+  simp only [Nat.reduceSub, Nat.reduceGT, if_true, ofNat4]
+  rw [encChar_tbl _ _ (by rw [enc_s1]; omega), encChar_tbl _ _ (by rw [enc_t1]; omega), enc_s1, enc_t1]
+
+theorem encLoop_nopad (v : UInt32) (bin : Bytes) (acc : UInt32) :
+    encLoop v bin acc 0 = encode (isUrlsafe v) false bin := by
+  fun_induction encode (isUrlsafe v) false bin generalizing acc with
+  | case1 a b c rest ih => rw [encLoop_3, ih]
+  | case2 a b => rw [encLoop_2]; simp
+  | case3 a => rw [encLoop_1]; simp
+  | case4 => simp [encLoop]
+
+theorem encode_pad (us pad : Bool) (bin : Bytes) :
+    encode us pad bin = encode us false bin ++
+      List.replicate (encodedLen pad bin.length - encodedLen false bin.length) 61 := by
+  fun_induction encode us pad bin with
+  | case1 a b c rest ih =>
+    rw [ih]
+    have : encodedLen pad (a :: b :: c :: rest).length - encodedLen false (a :: b :: c :: rest).length
+        = encodedLen pad rest.length - encodedLen false rest.length := by
+      simp only [List.length_cons]; unfold encodedLen; cases pad <;> simp <;> omega
+    rw [this]
+    simp [encode]
+  | case2 a b => cases pad <;> simp [encode, encodedLen, padChar]
+  | case3 a => cases pad <;> simp [encode, encodedLen, padChar, List.replicate]
+  | case4 => cases pad <;> simp [encode, encodedLen]
+
+
+theorem bin2base64_spec (maxlen : Nat) (bin : Bytes) (v : UInt32) :
+    sodium_bin2base64 maxlen bin v =
+      if !variantOk v then .misuse
+      else if maxlen ≤ encodedLen (!isNoPad v) bin.length then .misuse
+      else .ok (encode (isUrlsafe v) (!isNoPad v) bin ++ zeros (maxlen - encodedLen (!isNoPad v) bin.length)) := by
+  unfold sodium_bin2base64
+  simp only [b64Len_spec, encLoop_nopad, encode_len, zeros]
+  rw [encode_pad (isUrlsafe v) (!isNoPad v) bin]
+
+/-! ### hex decoder -/
+
+theorem hexClassify_none {c : UInt8} (h : hexCharVal c = none) : hexClassify c = (0, 0) := by
+  rw [hexClassify_tbl, h]
+theorem hexClassify_some {c : UInt8} {n : Nat} (h : hexCharVal c = some n) : hexClassify c = (0xFF, UInt8.ofNat n) := by
+  rw [hexClassify_tbl, h]
+
+theorem hexLoop_nondigit (cap ign) (c : UInt8) (rest pos binRev cAcc st) (h : hexCharVal c = none) :
+    hexLoop cap ign (c :: rest) pos binRev cAcc st =
+      if !st && inIgnore ign c then hexLoop cap ign rest (pos + 1) binRev cAcc st
+      else ⟨0, pos, binRev.reverse, st⟩ := by
+  simp [hexLoop, hexClassify_none h]
+
+theorem hexLoop_digit (cap ign) (c : UInt8) (n : Nat) (rest pos binRev cAcc st) (h : hexCharVal c = some n) :
+    hexLoop cap ign (c :: rest) pos binRev cAcc st =
+      if binRev.length ≥ cap then ⟨-1, pos, binRev.reverse, st⟩
+      else if !st then hexLoop cap ign rest (pos + 1) binRev (UInt8.ofNat n * 16) true
+      else hexLoop cap ign rest (pos + 1) ((cAcc ||| UInt8.ofNat n) :: binRev) cAcc false := by
+  simp [hexLoop, hexClassify_some h]
+
+theorem hexCharVal_cases (c : UInt8) : hexCharVal c = none ∨ ∃ n, hexCharVal c = some n := by
+  cases h : hexCharVal c
+  · exact .inl rfl
+  · exact .inr ⟨_, rfl⟩
+
+theorem hexLoop_cap (cap ign) : ∀ (hex : Bytes) (pos : Nat) (binRev : Bytes) (cAcc : UInt8) (st : Bool),
+    binRev.length ≤ cap → (hexLoop cap ign hex pos binRev cAcc st).bin.length ≤ cap
+  | [], pos, binRev, cAcc, st, h => by simpa [hexLoop] using h
+  | c :: rest, pos, binRev, cAcc, st, h => by
+    rcases hexCharVal_cases c with hc | ⟨n, hc⟩
+    · rw [hexLoop_nondigit _ _ _ _ _ _ _ _ hc]
+      split
+      · exact hexLoop_cap cap ign rest _ _ _ _ h
+      · simpa using h
+    · rw [hexLoop_digit _ _ _ _ _ _ _ _ _ hc]
+      split
+      · simpa using h
+      · split
+        · exact hexLoop_cap cap ign rest _ _ _ _ h
+        · exact hexLoop_cap cap ign rest _ _ _ _ (by simp; omega)
+
+theorem hex2bin_cap (cap : Nat) (hex : Bytes) (ign : Option Bytes) (wantEnd : Bool) :
+    (sodium_hex2bin cap hex ign wantEnd).written.length ≤ cap := by
+  simp only [sodium_hex2bin]
+  exact hexLoop_cap cap ign hex 0 [] 0 false (Nat.zero_le _)
+
+theorem hex2bin_fail_len (cap : Nat) (hex : Bytes) (ign : Option Bytes) :
+    (sodium_hex2bin cap hex ign true).rc ≠ 0 → (sodium_hex2bin cap hex ign true).binLen = 0 := by
+  simp only [sodium_hex2bin]
+  intro h
+  simp only [Bool.not_true, Bool.false_and, Bool.false_eq_true, if_false] at h ⊢
+  rw [if_pos h]
+
+
+/-- reference grammar for hex text (same as `C15.HexWF`) -/
+inductive HexGram (ign : Option Bytes) : Bytes → Bytes → Prop where
+  | nil : HexGram ign [] []
+  | skip (c : UInt8) (rest out : Bytes) : hexCharVal c = none → inIgnore ign c = true →
+      HexGram ign rest out → HexGram ign (c :: rest) out
+  | pair (hi lo : UInt8) (a b : Nat) (rest out : Bytes) : hexCharVal hi = some a → hexCharVal lo = some b →
+      HexGram ign rest out → HexGram ign (hi :: lo :: rest) (UInt8.ofNat (16 * a + b) :: out)
+
+theorem hexCharVal_lt {c : UInt8} {n : Nat} (h : hexCharVal c = some n) : n < 16 := by
+  unfold hexCharVal at h
+  simp only [UInt8.le_iff_toNat_le] at h
+  split at h
+  · cases h; simp at *; omega
+  · split at h
+    · cases h; simp at *; omega
+    · split at h
+      · cases h; simp at *; omega
+      · cases h
+
+theorem nibbles_join : ∀ a b : Fin 16, UInt8.ofNat a.val * 16 ||| UInt8.ofNat b.val = UInt8.ofNat (16 * a.val + b.val) := by
+  decide
+
+theorem nibbles_join' {a b : Nat} (ha : a < 16) (hb : b < 16) :
+    UInt8.ofNat a * 16 ||| UInt8.ofNat b = UInt8.ofNat (16 * a + b) := nibbles_join ⟨a, ha⟩ ⟨b, hb⟩
+
+theorem hexLoop_of_gram (cap ign) {hex out : Bytes} (hg : HexGram ign hex out) :
+    ∀ (pos : Nat) (binRev : Bytes) (cAcc : UInt8), binRev.length + out.length ≤ cap →
+      hexLoop cap ign hex pos binRev cAcc false = ⟨0, pos + hex.length, binRev.reverse ++ out, false⟩ := by
+  induction hg with
+  | nil => intro pos binRev cAcc _; simp [hexLoop]
+  | skip c rest out hc hi _ ih =>
+    intro pos binRev cAcc h
+    rw [hexLoop_nondigit _ _ _ _ _ _ _ _ hc, ih _ _ _ h]
+    simp [hi]; omega
+  | pair hi lo a b rest out ha hb _ ih =>
+    intro pos binRev cAcc h
+    simp only [List.length_cons] at h
+    rw [hexLoop_digit _ _ _ _ _ _ _ _ _ ha, if_neg (by omega)]
+    simp only [Bool.not_false, if_true]
+    rw [hexLoop_digit _ _ _ _ _ _ _ _ _ hb, if_neg (by omega)]
+    simp only [Bool.not_true, Bool.false_eq_true, if_false]
+    rw [ih _ _ _ (by simp; omega), nibbles_join' (hexCharVal_lt ha) (hexCharVal_lt hb)]
+    simp; omega
+
+theorem gram_of_hexLoop (cap ign) : ∀ (hex : Bytes) (pos : Nat) (binRev : Bytes) (cAcc : UInt8),
+    (hexLoop cap ign hex pos binRev cAcc false).ret = 0 →
+    (hexLoop cap ign hex pos binRev cAcc false).state = false →
+    (hexLoop cap ign hex pos binRev cAcc false).pos = pos + hex.length →
+    ∃ out, (hexLoop cap ign hex pos binRev cAcc false).bin = binRev.reverse ++ out ∧ HexGram ign hex out
+  | [], pos, binRev, cAcc, _, _, _ => ⟨[], by simp [hexLoop], .nil⟩
+  | c :: rest, pos, binRev, cAcc, h1, h2, h3 => by
+    rcases hexCharVal_cases c with hc | ⟨a, hc⟩
+    · rw [hexLoop_nondigit _ _ _ _ _ _ _ _ hc] at h1 h2 h3 ⊢
+      by_cases hi : inIgnore ign c = true
+      · simp only [hi, Bool.not_false, Bool.and_self, if_true] at h1 h2 h3 ⊢
+        obtain ⟨out, ho, hg⟩ := gram_of_hexLoop cap ign rest (pos + 1) binRev cAcc h1 h2
+          (by rw [h3]; simp; omega)
+        exact ⟨out, ho, .skip c rest out hc hi hg⟩
+      · simp [hi] at h3
+    · rw [hexLoop_digit _ _ _ _ _ _ _ _ _ hc] at h1 h2 h3 ⊢
+      by_cases hcap : binRev.length ≥ cap
+      · simp [hcap] at h1
+      · simp only [hcap, if_false, Bool.not_false, if_true] at h1 h2 h3 ⊢
+        match rest, h1, h2, h3 with
+        | [], _, h2, _ => simp [hexLoop] at h2
+        | d :: rest', h1, h2, h3 =>
+          rcases hexCharVal_cases d with hd | ⟨b, hd⟩
+          · rw [hexLoop_nondigit _ _ _ _ _ _ _ _ hd] at h2
+            simp at h2
+          · rw [hexLoop_digit _ _ _ _ _ _ _ _ _ hd] at h1 h2 h3 ⊢
+            by_cases hcap' : binRev.length ≥ cap
+            · exact absurd hcap' hcap
+            · simp only [hcap', if_false, Bool.not_true, Bool.false_eq_true] at h1 h2 h3 ⊢
+              obtain ⟨out, ho, hg⟩ := gram_of_hexLoop cap ign rest' (pos + 1 + 1) _ _ h1 h2
+                (by rw [h3]; simp; omega)
+              refine ⟨_, ?_, .pair c d a b rest' out hc hd hg⟩
+              rw [ho, nibbles_join' (hexCharVal_lt hc) (hexCharVal_lt hd)]
+              simp
+
+
+theorem hex2bin_of_gram (cap : Nat) {hex out : Bytes} (ign : Option Bytes) (wantEnd : Bool)
+    (hg : HexGram ign hex out) (hc : out.length ≤ cap) :
+    sodium_hex2bin cap hex ign wantEnd = ⟨0, out.length, hex.length, out⟩ := by
+  have := hexLoop_of_gram cap ign hg 0 [] 0 (by simpa using hc)
+  simp [sodium_hex2bin, this]
+
+theorem hex2bin_spec (cap : Nat) (hex : Bytes) (ign : Option Bytes) (out : Bytes) :
+    ((sodium_hex2bin cap hex ign false).rc = 0 ∧ (sodium_hex2bin cap hex ign false).written = out
+        ∧ (sodium_hex2bin cap hex ign false).binLen = out.length)
+      ↔ (HexGram ign hex out ∧ out.length ≤ cap) := by
+  constructor
+  · rintro ⟨h1, h2, _⟩
+    have hcap := hex2bin_cap cap hex ign false
+    rw [h2] at hcap
+    refine ⟨?_, hcap⟩
+    simp only [sodium_hex2bin] at h1 h2
+    generalize hl : hexLoop cap ign hex 0 [] 0 false = l at h1 h2
+    by_cases hs : l.state = true
+    · simp [hs] at h1
+    · simp only [hs, Bool.not_false, Bool.true_and] at h1
+      by_cases hp : l.pos = hex.length
+      · simp only [hp, ne_eq, not_true_eq_false, decide_false, Bool.false_eq_true, if_false] at h1
+        obtain ⟨o, ho, hg⟩ := gram_of_hexLoop cap ign hex 0 [] 0 (by rw [hl]; exact h1)
+          (by rw [hl]; simpa using hs) (by rw [hl]; simpa using hp)
+        rw [hl, h2] at ho
+        simp at ho
+        rw [ho]; exact hg
+      · simp [hp] at h1
+  · rintro ⟨hg, hc⟩
+    rw [hex2bin_of_gram cap ign false hg hc]
+    simp
+
+theorem hexNibble_val : ∀ n : Fin 16, hexCharVal (hexNibbleChar n.val) = some n.val := by decide
+
+theorem hexEncode_gram (ign : Option Bytes) (bin : Bytes) : HexGram ign (hexEncode bin) bin := by
+  induction bin with
+  | nil => exact .nil
+  | cons x xs ih =>
+    have hx := x.toNat_lt
+    have h1 := hexNibble_val ⟨x.toNat / 16, by omega⟩
+    have h2 := hexNibble_val ⟨x.toNat % 16, by omega⟩
+    have := HexGram.pair (ign := ign) _ _ _ _ _ _ h1 h2 ih
+    have hb : UInt8.ofNat (16 * (x.toNat / 16) + x.toNat % 16) = x := by
+      rw [Nat.div_add_mod]; simp
+    simp only [hb] at this
+    simpa [hexEncode] using this
+
+theorem hexEncode_length (bin : Bytes) : (hexEncode bin).length = 2 * bin.length := by
+  induction bin with
+  | nil => rfl
+  | cons x xs ih => simp only [hexEncode, List.flatMap_cons, List.length_append, List.length_cons] at ih ⊢; simp at ih ⊢; omega
+
+theorem hex2bin_roundtrip (bin : Bytes) (cap : Nat) (h : bin.length ≤ cap) (ign : Option Bytes) (wantEnd : Bool) :
+    sodium_hex2bin cap (hexEncode bin) ign wantEnd = ⟨0, bin.length, 2 * bin.length, bin⟩ := by
+  rw [hex2bin_of_gram cap ign wantEnd (hexEncode_gram ign bin) h, hexEncode_length]
+
+
+/-! ### Base64 decoder: arithmetic of the accumulator -/
+
+/-- decoder state: bytes emitted so far (reversed), accumulator, number of pending bits -/
+abbrev DState := Bytes × UInt32 × Nat
+
+/-- one step of the decoding loop on a sextet value: exact model arithmetic, no capacity check -/
+def dstep (st : DState) (d : UInt32) : DState :=
+  let acc' := (st.2.1 <<< 6) + d
+  if st.2.2 + 6 ≥ 8 then
+    (((acc' >>> (UInt32.ofNat (st.2.2 + 6 - 8))) &&& 0xFF).toUInt8 :: st.1, acc', st.2.2 + 6 - 8)
+  else (st.1, acc', st.2.2 + 6)
+
+def accS (acc d : UInt32) : UInt32 := (acc <<< 6) + d
+
+theorem accS_toNat (acc d : UInt32) : (accS acc d).toNat = (acc.toNat * 64 + d.toNat) % 2 ^ 32 := by
+  simp [accS, UInt32.toNat_add, UInt32.toNat_shiftLeft, Nat.shiftLeft_eq]
+
+theorem ofNat_toNat_lt64 {x : Nat} (h : x < 64) : (UInt32.ofNat x).toNat = x := by
+  simp; omega
+
+theorem and255 (n : Nat) : n &&& 255 = n % 256 := Nat.and_two_pow_sub_one_eq_mod n 8
+theorem and15 (n : Nat) : n &&& 15 = n % 16 := Nat.and_two_pow_sub_one_eq_mod n 4
+theorem and3 (n : Nat) : n &&& 3 = n % 4 := Nat.and_two_pow_sub_one_eq_mod n 2
+
+theorem dec_b1 (acc : UInt32) (a b : Nat) (ha : a < 64) (hb : b < 64) :
+    (((accS (accS acc (UInt32.ofNat a)) (UInt32.ofNat b)) >>> 4) &&& 0xFF).toUInt8 = UInt8.ofNat (a * 4 + b / 16) := by
+  apply UInt8.toNat_inj.mp
+  simp [UInt32.toNat_shiftRight, Nat.shiftRight_eq_div_pow, accS_toNat, and255, ofNat_toNat_lt64 ha, ofNat_toNat_lt64 hb]
+  omega
+
+theorem dec_b2 (acc : UInt32) (b c : Nat) (hb : b < 64) (hc : c < 64) :
+    (((accS (accS acc (UInt32.ofNat b)) (UInt32.ofNat c)) >>> 2) &&& 0xFF).toUInt8 = UInt8.ofNat (b % 16 * 16 + c / 4) := by
+  apply UInt8.toNat_inj.mp
+  simp [UInt32.toNat_shiftRight, Nat.shiftRight_eq_div_pow, accS_toNat, and255, ofNat_toNat_lt64 hb, ofNat_toNat_lt64 hc]
+  omega
+
+theorem dec_b3 (acc : UInt32) (c d : Nat) (hc : c < 64) (hd : d < 64) :
+    (((accS (accS acc (UInt32.ofNat c)) (UInt32.ofNat d)) >>> 0) &&& 0xFF).toUInt8 = UInt8.ofNat (c % 4 * 64 + d) := by
+  apply UInt8.toNat_inj.mp
+  simp [accS_toNat, and255, ofNat_toNat_lt64 hc, ofNat_toNat_lt64 hd]
+  omega
+
+/-- the final strictness test of `sodium_base642bin` -/
+def badTail (acc : UInt32) (n : Nat) : Prop := n > 4 ∨ (acc &&& ((1 <<< (UInt32.ofNat n)) - 1)) ≠ 0
+
+theorem badTail_0 (acc : UInt32) : ¬ badTail acc 0 := by
+  simp [badTail]
+theorem badTail_6 (acc : UInt32) : badTail acc 6 := by
+  simp [badTail]
+theorem badTail_4 (acc : UInt32) (b : Nat) (hb : b < 64) : badTail (accS acc (UInt32.ofNat b)) 4 ↔ b % 16 ≠ 0 := by
+  have h15 : ((1 : UInt32) <<< (UInt32.ofNat 4)) - 1 = 15 := by decide
+  simp only [badTail, h15, Nat.lt_irrefl, false_or, ne_eq, ← UInt32.toNat_inj]
+  simp [accS_toNat, and15, ofNat_toNat_lt64 hb]
+  omega
+theorem badTail_2 (acc : UInt32) (c : Nat) (hc : c < 64) : badTail (accS acc (UInt32.ofNat c)) 2 ↔ c % 4 ≠ 0 := by
+  have h3 : ((1 : UInt32) <<< (UInt32.ofNat 2)) - 1 = 3 := by decide
+  simp only [badTail, h3, ne_eq, ← UInt32.toNat_inj]
+  simp [accS_toNat, and3, ofNat_toNat_lt64 hc]
+  omega
+
+
+/-- bytes of a sextet sequence (complete groups plus a partial tail) -/
+def ungroup : List Nat → Bytes
+  | a :: b :: c :: d :: r =>
+    UInt8.ofNat (a * 4 + b / 16) :: UInt8.ofNat (b % 16 * 16 + c / 4) :: UInt8.ofNat (c % 4 * 64 + d) :: ungroup r
+  | [a, b, c] => [UInt8.ofNat (a * 4 + b / 16), UInt8.ofNat (b % 16 * 16 + c / 4)]
+  | [a, b] => [UInt8.ofNat (a * 4 + b / 16)]
+  | [_] => []
+  | [] => []
+
+/-- canonical: no dangling single sextet, trailing bits zero -/
+def canon : List Nat → Prop
+  | _ :: _ :: _ :: _ :: r => canon r
+  | [_, _, c] => c % 4 = 0
+  | [_, b] => b % 16 = 0
+  | [_] => False
+  | [] => True
+
+/-- pending bits after a sextet sequence -/
+def tlen : List Nat → Nat
+  | _ :: _ :: _ :: _ :: r => tlen r
+  | [_, _, _] => 2
+  | [_, _] => 4
+  | [_] => 6
+  | [] => 0
+
+def dfold (st : DState) (s : List Nat) : DState := s.foldl (fun st x => dstep st (UInt32.ofNat x)) st
+
+theorem dfold_nil (st : DState) : dfold st [] = st := rfl
+theorem dfold_cons (st : DState) (x : Nat) (s : List Nat) : dfold st (x :: s) = dfold (dstep st (UInt32.ofNat x)) s := rfl
+
+theorem dstep_0 (br : Bytes) (acc d : UInt32) : dstep (br, acc, 0) d = (br, accS acc d, 6) := by
+  simp [dstep, accS]
+theorem dstep_6 (br : Bytes) (acc d : UInt32) :
+    dstep (br, acc, 6) d = (((accS acc d >>> 4) &&& 0xFF).toUInt8 :: br, accS acc d, 4) := by
+  simp [dstep, accS]
+theorem dstep_4 (br : Bytes) (acc d : UInt32) :
+    dstep (br, acc, 4) d = (((accS acc d >>> 2) &&& 0xFF).toUInt8 :: br, accS acc d, 2) := by
+  simp [dstep, accS]
+theorem dstep_2 (br : Bytes) (acc d : UInt32) :
+    dstep (br, acc, 2) d = (((accS acc d >>> 0) &&& 0xFF).toUInt8 :: br, accS acc d, 0) := by
+  simp [dstep, accS]
+
+/-- value of the decoding fold from a group boundary -/
+theorem dfold_spec : ∀ (s : List Nat) (br : Bytes) (acc : UInt32), (∀ x ∈ s, x < 64) →
+    ∃ acc', dfold (br, acc, 0) s = ((ungroup s).reverse ++ br, acc', tlen s) ∧ (badTail acc' (tlen s) ↔ ¬ canon s)
+  | [], br, acc, _ => ⟨acc, by simp [dfold_nil, ungroup, tlen], by simp [tlen, canon, badTail_0]⟩
+  | [a], br, acc, _ => ⟨accS acc (UInt32.ofNat a), by simp [dfold_cons, dfold_nil, dstep_0, ungroup, tlen],
+      by simp [tlen, canon, badTail_6]⟩
+  | [a, b], br, acc, h => by
+    have ha : a < 64 := h a (by simp)
+    have hb : b < 64 := h b (by simp)
+    refine ⟨accS (accS acc (UInt32.ofNat a)) (UInt32.ofNat b), ?_, ?_⟩
+    · simp [dfold_cons, dfold_nil, dstep_0, dstep_6, ungroup, tlen, dec_b1 _ _ _ ha hb]
+    · simp [tlen, canon, badTail_4 _ _ hb]
+  | [a, b, c], br, acc, h => by
+    have ha : a < 64 := h a (by simp)
+    have hb : b < 64 := h b (by simp)
+    have hc : c < 64 := h c (by simp)
+    refine ⟨accS (accS (accS acc (UInt32.ofNat a)) (UInt32.ofNat b)) (UInt32.ofNat c), ?_, ?_⟩
+    · simp [dfold_cons, dfold_nil, dstep_0, dstep_6, dstep_4, ungroup, tlen, dec_b1 _ _ _ ha hb, dec_b2 _ _ _ hb hc]
+    · simp [tlen, canon, badTail_2 _ _ hc]
+  | a :: b :: c :: d :: r, br, acc, h => by
+    have ha : a < 64 := h a (by simp)
+    have hb : b < 64 := h b (by simp)
+    have hc : c < 64 := h c (by simp)
+    have hd : d < 64 := h d (by simp)
+    obtain ⟨acc', h1, h2⟩ := dfold_spec r
+      (UInt8.ofNat (c % 4 * 64 + d) :: UInt8.ofNat (b % 16 * 16 + c / 4) :: UInt8.ofNat (a * 4 + b / 16) :: br)
+      (accS (accS (accS (accS acc (UInt32.ofNat a)) (UInt32.ofNat b)) (UInt32.ofNat c)) (UInt32.ofNat d))
+      (fun x hx => h x (by simp [hx]))
+    refine ⟨acc', ?_, ?_⟩
+    · simp only [dfold_cons, dstep_0, dstep_6, dstep_4, dstep_2, dec_b1 _ _ _ ha hb, dec_b2 _ _ _ hb hc,
+        dec_b3 _ _ _ hc hd, h1, ungroup, tlen]
+      simp
+    · simpa [tlen, canon] using h2
+
+
+/-! #### the RFC encoder as a sextet sequence -/
+
+def sextets : Bytes → List Nat
+  | a :: b :: c :: r =>
+    a.toNat / 4 :: (a.toNat % 4 * 16 + b.toNat / 16) :: (b.toNat % 16 * 4 + c.toNat / 64) :: c.toNat % 64 :: sextets r
+  | [a, b] => [a.toNat / 4, a.toNat % 4 * 16 + b.toNat / 16, b.toNat % 16 * 4]
+  | [a] => [a.toNat / 4, a.toNat % 4 * 16]
+  | [] => []
+
+/-- number of '=' characters -/
+def padN (pad : Bool) (n : Nat) : Nat := if pad then (3 - n % 3) % 3 else 0
+
+theorem padN_add3 (pad : Bool) (n : Nat) : padN pad (n + 3) = padN pad n := by
+  simp [padN]
+
+theorem encode_sextets (us pad : Bool) (out : Bytes) :
+    encode us pad out = (sextets out).map (sextetChar us) ++ List.replicate (padN pad out.length) padChar := by
+  fun_induction encode us pad out with
+  | case1 a b c rest ih =>
+    simp only [List.length_cons, padN_add3, sextets, List.map_cons, List.cons_append, ih]
+  | case2 a b => cases pad <;> simp [sextets, padN]
+  | case3 a => cases pad <;> simp [sextets, padN, List.replicate]
+  | case4 => cases pad <;> simp [sextets, padN]
+
+theorem sextets_lt : ∀ (out : Bytes), ∀ x ∈ sextets out, x < 64
+  | a :: b :: c :: r => by
+    have ha := a.toNat_lt; have hb := b.toNat_lt; have hc := c.toNat_lt
+    intro x hx
+    simp only [sextets, List.mem_cons] at hx
+    rcases hx with h | h | h | h | h
+    · omega
+    · omega
+    · omega
+    · omega
+    · exact sextets_lt r x h
+  | [a, b] => by
+    have ha := a.toNat_lt; have hb := b.toNat_lt
+    intro x hx
+    simp only [sextets, List.mem_cons, List.not_mem_nil, or_false] at hx
+    rcases hx with h | h | h <;> omega
+  | [a] => by
+    have ha := a.toNat_lt
+    intro x hx
+    simp only [sextets, List.mem_cons, List.not_mem_nil, or_false] at hx
+    rcases hx with h | h <;> omega
+  | [] => by simp [sextets]
+
+theorem byte_eq (x : UInt8) (n : Nat) (h : n = x.toNat) : UInt8.ofNat n = x := by
+  subst h; simp
+
+theorem ungroup_sextets : ∀ (out : Bytes), ungroup (sextets out) = out ∧ canon (sextets out)
+  | a :: b :: c :: r => by
+    have ha := a.toNat_lt; have hb := b.toNat_lt; have hc := c.toNat_lt
+    obtain ⟨h1, h2⟩ := ungroup_sextets r
+    simp only [sextets, ungroup, canon, h1, h2, and_true]
+    rw [byte_eq a _ (by omega), byte_eq b _ (by omega), byte_eq c _ (by omega)]
+  | [a, b] => by
+    have ha := a.toNat_lt; have hb := b.toNat_lt
+    simp only [sextets, ungroup, canon]
+    rw [byte_eq a _ (by omega), byte_eq b _ (by omega)]
+    exact ⟨rfl, by omega⟩
+  | [a] => by
+    have ha := a.toNat_lt
+    simp only [sextets, ungroup, canon]
+    rw [byte_eq a _ (by omega)]
+    exact ⟨rfl, by omega⟩
+  | [] => by simp [sextets, ungroup, canon]
+
+theorem ofNat_toNat_lt256 {n : Nat} (h : n < 256) : (UInt8.ofNat n).toNat = n := by
+  simp; omega
+
+theorem sextets_ungroup : ∀ (s : List Nat), (∀ x ∈ s, x < 64) → canon s → sextets (ungroup s) = s
+  | a :: b :: c :: d :: r, h, hc => by
+    have ha : a < 64 := h a (by simp)
+    have hb : b < 64 := h b (by simp)
+    have hc' : c < 64 := h c (by simp)
+    have hd : d < 64 := h d (by simp)
+    have ih := sextets_ungroup r (fun x hx => h x (by simp [hx])) (by simpa [canon] using hc)
+    simp only [ungroup, sextets, ih]
+    rw [ofNat_toNat_lt256 (n := a * 4 + b / 16) (by omega), ofNat_toNat_lt256 (n := b % 16 * 16 + c / 4) (by omega),
+      ofNat_toNat_lt256 (n := c % 4 * 64 + d) (by omega)]
+    congr 1
+    · omega
+    · congr 1
+      · omega
+      · congr 1
+        · omega
+        · congr 1; omega
+  | [a, b, c], h, hc => by
+    have ha : a < 64 := h a (by simp)
+    have hb : b < 64 := h b (by simp)
+    have hc' : c < 64 := h c (by simp)
+    simp only [canon] at hc
+    simp only [ungroup, sextets]
+    rw [ofNat_toNat_lt256 (n := a * 4 + b / 16) (by omega), ofNat_toNat_lt256 (n := b % 16 * 16 + c / 4) (by omega)]
+    congr 1
+    · omega
+    · congr 1
+      · omega
+      · congr 1; omega
+  | [a, b], h, hc => by
+    have ha : a < 64 := h a (by simp)
+    have hb : b < 64 := h b (by simp)
+    simp only [canon] at hc
+    simp only [ungroup, sextets]
+    rw [ofNat_toNat_lt256 (n := a * 4 + b / 16) (by omega)]
+    congr 1
+    · omega
+    · congr 1; omega
+  | [_], _, hc => by simp [canon] at hc
+  | [], _, _ => by simp [ungroup, sextets]
+
+theorem tlen_padN : ∀ (s : List Nat), canon s → tlen s / 2 = padN true (ungroup s).length
+  | _ :: _ :: _ :: _ :: r, hc => by
+    have ih := tlen_padN r (by simpa [canon] using hc)
+    simp only [tlen, ungroup, List.length_cons, padN_add3, ih]
+  | [_, _, _], _ => by simp [tlen, ungroup, padN]
+  | [_, _], _ => by simp [tlen, ungroup, padN]
+  | [_], hc => by simp [canon] at hc
+  | [], _ => by simp [tlen, ungroup, padN]
+
+/-! ### Base64 decoder: the main loop as a scan -/
+
+set_option maxRecDepth 100000 in
+theorem charSextet_tbl : ∀ (c : UInt8) (us : Bool),
+    (charSextet us c).all (fun x => decide (x < 64) && sextetChar us x == c) = true := by decide +kernel
+
+theorem charSextet_lt {us : Bool} {c : UInt8} {x : Nat} (h : charSextet us c = some x) : x < 64 := by
+  have := charSextet_tbl c us; rw [h] at this; simp at this; exact this.1
+theorem sextetChar_of_charSextet {us : Bool} {c : UInt8} {x : Nat} (h : charSextet us c = some x) :
+    sextetChar us x = c := by
+  have := charSextet_tbl c us; rw [h] at this; simp at this; exact this.2
+
+theorem charSextet_sextetChar_tbl : ∀ (x : Fin 64) (us : Bool), charSextet us (sextetChar us x.val) = some x.val := by
+  decide +kernel
+theorem charSextet_sextetChar {us : Bool} {x : Nat} (h : x < 64) : charSextet us (sextetChar us x) = some x :=
+  charSextet_sextetChar_tbl ⟨x, h⟩ us
+
+theorem charSextet_pad (us : Bool) : charSextet us padChar = none := by cases us <;> decide
+
+theorem charSextet_cases (us : Bool) (c : UInt8) : charSextet us c = none ∨ ∃ x, charSextet us c = some x := by
+  cases h : charSextet us c
+  · exact .inl rfl
+  · exact .inr ⟨_, rfl⟩
+
+theorem decChar_none {v : UInt32} {c : UInt8} (h : charSextet (isUrlsafe v) c = none) : decChar v c = 0xFF := by
+  rw [decChar_tbl, h]
+theorem decChar_some {v : UInt32} {c : UInt8} {x : Nat} (h : charSextet (isUrlsafe v) c = some x) :
+    decChar v c = UInt32.ofNat x ∧ decChar v c ≠ 0xFF := by
+  have hx := charSextet_lt h
+  rw [decChar_tbl, h]
+  refine ⟨rfl, ?_⟩
+  intro e
+  have := congrArg UInt32.toNat e
+  simp at this
+  omega
+
+theorem ofNat_ne_255 {x : Nat} (hx : x < 64) : UInt32.ofNat x ≠ 255 := by
+  intro e
+  have := congrArg UInt32.toNat e
+  simp at this
+  omega
+
+theorem b64Loop_none (v cap ign) (c : UInt8) (rest pos br acc n) (h : charSextet (isUrlsafe v) c = none) :
+    b64Loop v cap ign (c :: rest) pos br acc n =
+      if inIgnore ign c then b64Loop v cap ign rest (pos + 1) br acc n else ⟨0, pos, br.reverse, acc, n⟩ := by
+  simp [b64Loop, decChar_none h]
+
+theorem b64Loop_some (v cap ign) (c : UInt8) (x : Nat) (rest pos br acc n)
+    (h : charSextet (isUrlsafe v) c = some x) :
+    b64Loop v cap ign (c :: rest) pos br acc n =
+      if n + 6 ≥ 8 ∧ br.length ≥ cap then ⟨-1, pos, br.reverse, accS acc (UInt32.ofNat x), n + 6 - 8⟩
+      else b64Loop v cap ign rest (pos + 1) (dstep (br, acc, n) (UInt32.ofNat x)).1
+        (dstep (br, acc, n) (UInt32.ofNat x)).2.1 (dstep (br, acc, n) (UInt32.ofNat x)).2.2 := by
+  obtain ⟨h1, _⟩ := decChar_some h
+  have h2 := ofNat_ne_255 (charSextet_lt h)
+  rw [b64Loop]
+  simp only [h1, h2, if_false, dstep, accS]
+  by_cases hn : n + 6 ≥ 8
+  · by_cases hc : br.length ≥ cap
+    · simp [hn, hc]
+    · simp [hn, hc]
+  · simp [hn]
+
+
+/-- the main loop as a pure scan: sextet values consumed, and the unconsumed rest of the text -/
+def scan (us : Bool) (ign : Option Bytes) : Bytes → List Nat × Bytes
+  | [] => ([], [])
+  | c :: r =>
+    match charSextet us c with
+    | some x => (x :: (scan us ign r).1, (scan us ign r).2)
+    | none => if inIgnore ign c then scan us ign r else ([], c :: r)
+
+theorem scan_some {us ign} {c : UInt8} {x : Nat} (r : Bytes) (h : charSextet us c = some x) :
+    scan us ign (c :: r) = (x :: (scan us ign r).1, (scan us ign r).2) := by
+  simp [scan, h]
+theorem scan_none {us ign} {c : UInt8} (r : Bytes) (h : charSextet us c = none) :
+    scan us ign (c :: r) = if inIgnore ign c then scan us ign r else ([], c :: r) := by
+  simp [scan, h]
+
+theorem scan_lt (us ign) : ∀ t : Bytes, ∀ x ∈ (scan us ign t).1, x < 64
+  | [] => by simp [scan]
+  | c :: r => by
+    rcases charSextet_cases us c with h | ⟨x, h⟩
+    · rw [scan_none r h]
+      split
+      · exact scan_lt us ign r
+      · simp
+    · rw [scan_some r h]
+      intro y hy
+      simp only [List.mem_cons] at hy
+      rcases hy with rfl | hy
+      · exact charSextet_lt h
+      · exact scan_lt us ign r y hy
+
+theorem scan_rest_len (us ign) : ∀ t : Bytes, (scan us ign t).2.length ≤ t.length
+  | [] => by simp [scan]
+  | c :: r => by
+    have ih := scan_rest_len us ign r
+    rcases charSextet_cases us c with h | ⟨x, h⟩
+    · rw [scan_none r h]
+      split
+      · simp; omega
+      · simp
+    · rw [scan_some r h]; simp; omega
+
+theorem scan_rest_drop (us ign) : ∀ t : Bytes, t.drop (t.length - (scan us ign t).2.length) = (scan us ign t).2
+  | [] => by simp [scan]
+  | c :: r => by
+    have ih := scan_rest_drop us ign r
+    have hl := scan_rest_len us ign r
+    rcases charSextet_cases us c with h | ⟨x, h⟩
+    · rw [scan_none r h]
+      split
+      · rw [List.length_cons, show r.length + 1 - (scan us ign r).2.length = (r.length - (scan us ign r).2.length) + 1 by omega]
+        simpa using ih
+      · simp
+    · rw [scan_some r h]
+      simp only
+      rw [List.length_cons, show r.length + 1 - (scan us ign r).2.length = (r.length - (scan us ign r).2.length) + 1 by omega]
+      simpa using ih
+
+/-- the scan stops only at the end or at a character that is neither in the alphabet nor ignorable -/
+theorem scan_rest_head (us ign) : ∀ t : Bytes, ∀ c r, (scan us ign t).2 = c :: r →
+    charSextet us c = none ∧ inIgnore ign c = false
+  | [], c, r, h => by simp [scan] at h
+  | d :: t, c, r, h => by
+    rcases charSextet_cases us d with hd | ⟨x, hd⟩
+    · rw [scan_none t hd] at h
+      by_cases hi : inIgnore ign d = true
+      · simp only [hi, if_true] at h
+        exact scan_rest_head us ign t c r h
+      · simp only [hi] at h
+        simp at h
+        obtain ⟨rfl, rfl⟩ := h
+        exact ⟨hd, by simpa using hi⟩
+    · rw [scan_some t hd] at h
+      exact scan_rest_head us ign t c r h
+
+theorem dstep_len (st : DState) (d : UInt32) : st.1.length ≤ (dstep st d).1.length := by
+  unfold dstep
+  split <;> simp
+
+theorem dfold_len : ∀ (s : List Nat) (st : DState), st.1.length ≤ (dfold st s).1.length
+  | [], st => by simp [dfold_nil]
+  | x :: s, st => by
+    rw [dfold_cons]
+    exact Nat.le_trans (dstep_len st _) (dfold_len s _)
+
+theorem dstep_len_emit (br : Bytes) (acc : UInt32) (n : Nat) (d : UInt32) (h : n + 6 ≥ 8) :
+    (dstep (br, acc, n) d).1.length = br.length + 1 := by
+  simp [dstep, h]
+
+theorem dstep_len_noemit (br : Bytes) (acc : UInt32) (n : Nat) (d : UInt32) (h : ¬ n + 6 ≥ 8) :
+    (dstep (br, acc, n) d).1 = br := by
+  simp [dstep, h]
+
+theorem b64Loop_ok (v cap ign) : ∀ (t : Bytes) (pos : Nat) (br : Bytes) (acc : UInt32) (n : Nat),
+    (dfold (br, acc, n) (scan (isUrlsafe v) ign t).1).1.length ≤ cap →
+    b64Loop v cap ign t pos br acc n =
+      ⟨0, pos + (t.length - (scan (isUrlsafe v) ign t).2.length),
+        (dfold (br, acc, n) (scan (isUrlsafe v) ign t).1).1.reverse,
+        (dfold (br, acc, n) (scan (isUrlsafe v) ign t).1).2.1,
+        (dfold (br, acc, n) (scan (isUrlsafe v) ign t).1).2.2⟩
+  | [], pos, br, acc, n, _ => by simp [b64Loop, scan, dfold_nil]
+  | c :: r, pos, br, acc, n, hcap => by
+    have hl := scan_rest_len (isUrlsafe v) ign r
+    rcases charSextet_cases (isUrlsafe v) c with h | ⟨x, h⟩
+    · rw [b64Loop_none _ _ _ _ _ _ _ _ _ h]
+      rw [scan_none r h] at hcap ⊢
+      by_cases hi : inIgnore ign c = true
+      · simp only [hi, if_true] at hcap ⊢
+        rw [b64Loop_ok v cap ign r _ _ _ _ hcap]
+        simp only [List.length_cons, B64Loop.mk.injEq, true_and, and_true]
+        omega
+      · simp [hi, dfold_nil]
+    · rw [b64Loop_some _ _ _ _ _ _ _ _ _ _ h]
+      rw [scan_some r h] at hcap ⊢
+      simp only [dfold_cons] at hcap ⊢
+      have hmono := dfold_len (scan (isUrlsafe v) ign r).1 (dstep (br, acc, n) (UInt32.ofNat x))
+      rw [if_neg]
+      · rw [b64Loop_ok v cap ign r (pos + 1) (dstep (br, acc, n) (UInt32.ofNat x)).1
+          (dstep (br, acc, n) (UInt32.ofNat x)).2.1 (dstep (br, acc, n) (UInt32.ofNat x)).2.2 hcap]
+        simp only [List.length_cons, B64Loop.mk.injEq, true_and, and_true]
+        omega
+      · rintro ⟨h1, h2⟩
+        rw [dstep_len_emit _ _ _ _ h1] at hmono
+        omega
+
+theorem b64Loop_fail (v cap ign) : ∀ (t : Bytes) (pos : Nat) (br : Bytes) (acc : UInt32) (n : Nat),
+    br.length ≤ cap → ¬ (dfold (br, acc, n) (scan (isUrlsafe v) ign t).1).1.length ≤ cap →
+    (b64Loop v cap ign t pos br acc n).ret = -1
+  | [], pos, br, acc, n, h1, h2 => by simp [scan, dfold_nil] at h2; omega
+  | c :: r, pos, br, acc, n, h1, h2 => by
+    rcases charSextet_cases (isUrlsafe v) c with h | ⟨x, h⟩
+    · rw [b64Loop_none _ _ _ _ _ _ _ _ _ h]
+      rw [scan_none r h] at h2
+      by_cases hi : inIgnore ign c = true
+      · simp only [hi, if_true] at h2 ⊢
+        exact b64Loop_fail v cap ign r _ _ _ _ h1 h2
+      · simp [hi, dfold_nil] at h2; omega
+    · rw [b64Loop_some _ _ _ _ _ _ _ _ _ _ h]
+      rw [scan_some r h] at h2
+      simp only [dfold_cons] at h2
+      by_cases hc : n + 6 ≥ 8 ∧ br.length ≥ cap
+      · rw [if_pos hc]
+      · rw [if_neg hc]
+        refine b64Loop_fail v cap ign r (pos + 1) (dstep (br, acc, n) (UInt32.ofNat x)).1
+          (dstep (br, acc, n) (UInt32.ofNat x)).2.1 (dstep (br, acc, n) (UInt32.ofNat x)).2.2 ?_ h2
+        by_cases hn : n + 6 ≥ 8
+        · rw [dstep_len_emit _ _ _ _ hn]; omega
+        · rw [dstep_len_noemit _ _ _ _ hn]; exact h1
+
+theorem b64Loop_cap (v cap ign) : ∀ (t : Bytes) (pos : Nat) (br : Bytes) (acc : UInt32) (n : Nat),
+    br.length ≤ cap → (b64Loop v cap ign t pos br acc n).bin.length ≤ cap
+  | [], pos, br, acc, n, h => by simpa [b64Loop] using h
+  | c :: r, pos, br, acc, n, h1 => by
+    rcases charSextet_cases (isUrlsafe v) c with h | ⟨x, h⟩
+    · rw [b64Loop_none _ _ _ _ _ _ _ _ _ h]
+      split
+      · exact b64Loop_cap v cap ign r _ _ _ _ h1
+      · simpa using h1
+    · rw [b64Loop_some _ _ _ _ _ _ _ _ _ _ h]
+      by_cases hc : n + 6 ≥ 8 ∧ br.length ≥ cap
+      · rw [if_pos hc]; simpa using h1
+      · rw [if_neg hc]
+        refine b64Loop_cap v cap ign r _ _ _ _ ?_
+        by_cases hn : n + 6 ≥ 8
+        · rw [dstep_len_emit _ _ _ _ hn]; omega
+        · rw [dstep_len_noemit _ _ _ _ hn]; exact h1
+
+theorem base642bin_cap (cap : Nat) (b64 : Bytes) (ign : Option Bytes) (wantEnd : Bool) (v : UInt32) (r : DecResult) :
+    sodium_base642bin cap b64 ign wantEnd v = .res r → r.written.length ≤ cap := by
+  unfold sodium_base642bin
+  split
+  · intro h; cases h
+  · intro h
+    simp only [B64Dec.res.injEq] at h
+    rw [← h]
+    exact b64Loop_cap v cap ign b64 0 [] 0 0 (Nat.zero_le _)
+
+
+/-! ### Base64 decoder: padding, trailing skip, strictness, round trip -/
+
+/-- the text with its ignorable (non-alphabet, in-ignore-set) characters removed (same as `C15.strip`) -/
+def stripIgn (us : Bool) (ign : Option Bytes) (t : Bytes) : Bytes :=
+  t.filter fun c => (charSextet us c).isSome || c == padChar || !inIgnore ign c
+
+/-- the ignore set contains neither alphabet characters nor '=' -/
+def IgnDisj (us : Bool) (ign : Option Bytes) : Prop :=
+  ∀ c, inIgnore ign c = true → charSextet us c = none ∧ c ≠ padChar
+
+theorem stripIgn_nil (us ign) : stripIgn us ign [] = [] := rfl
+
+theorem stripIgn_keep {us ign} {c : UInt8} (r : Bytes)
+    (h : ((charSextet us c).isSome || c == padChar || !inIgnore ign c) = true) :
+    stripIgn us ign (c :: r) = c :: stripIgn us ign r := by
+  simp only [stripIgn, List.filter_cons, h, if_true]
+
+theorem stripIgn_alpha {us ign} {c : UInt8} {x : Nat} (r : Bytes) (h : charSextet us c = some x) :
+    stripIgn us ign (c :: r) = c :: stripIgn us ign r := stripIgn_keep r (by simp [h])
+
+theorem stripIgn_pad {us ign} (r : Bytes) : stripIgn us ign (padChar :: r) = padChar :: stripIgn us ign r :=
+  stripIgn_keep r (by simp)
+
+theorem stripIgn_notign {us ign} {c : UInt8} (r : Bytes) (h : inIgnore ign c = false) :
+    stripIgn us ign (c :: r) = c :: stripIgn us ign r := stripIgn_keep r (by simp [h])
+
+theorem stripIgn_ign {us ign} (hd : IgnDisj us ign) {c : UInt8} (r : Bytes) (h : inIgnore ign c = true) :
+    stripIgn us ign (c :: r) = stripIgn us ign r := by
+  obtain ⟨h1, h2⟩ := hd c h
+  simp [stripIgn, h, h1, h2]
+
+theorem skipIgnored_le (ign) : ∀ (t : Bytes) (pos : Nat), pos ≤ skipIgnored ign t pos ∧ skipIgnored ign t pos ≤ pos + t.length
+  | [], pos => by simp [skipIgnored]
+  | c :: r, pos => by
+    have := skipIgnored_le ign r (pos + 1)
+    simp only [skipIgnored]
+    split <;> simp <;> omega
+
+theorem skipIgnored_none (t : Bytes) (pos : Nat) : skipIgnored none t pos = pos := by
+  cases t <;> simp [skipIgnored, inIgnore]
+
+theorem skipIgnored_iff {us ign} (hd : IgnDisj us ign) : ∀ (t : Bytes) (pos : Nat),
+    skipIgnored ign t pos = pos + t.length ↔ stripIgn us ign t = []
+  | [], pos => by simp [skipIgnored, stripIgn_nil]
+  | c :: r, pos => by
+    have hle := skipIgnored_le ign r (pos + 1)
+    by_cases hi : inIgnore ign c = true
+    · rw [stripIgn_ign hd r hi, ← skipIgnored_iff hd r (pos + 1)]
+      simp only [skipIgnored, hi, if_true, List.length_cons]
+      omega
+    · have hi' : inIgnore ign c = false := by simpa using hi
+      rw [stripIgn_notign r hi']
+      simp only [skipIgnored, hi, List.length_cons]
+      simp
+
+theorem skipPadding_zero (ign) (t : Bytes) (pos : Nat) : skipPadding ign t pos 0 = (0, pos) := by
+  cases t <;> simp [skipPadding]
+
+theorem skipPadding_le (ign) : ∀ (t : Bytes) (pos k : Nat),
+    pos ≤ (skipPadding ign t pos k).2 ∧ (skipPadding ign t pos k).2 ≤ pos + t.length
+  | t, pos, 0 => by simp [skipPadding_zero]
+  | [], pos, k + 1 => by simp [skipPadding]
+  | c :: r, pos, k + 1 => by
+    have h1 := skipPadding_le ign r (pos + 1) k
+    have h2 := skipPadding_le ign r (pos + 1) (k + 1)
+    simp only [skipPadding]
+    split
+    · simp; omega
+    · split
+      · simp
+      · simp; omega
+
+theorem replicate_succ_ne_nil {k : Nat} {c : UInt8} : ([] : Bytes) ≠ List.replicate (k + 1) c := by
+  simp [List.replicate_succ]
+
+/-- the padding skip followed by the trailing ignore skip reaches the end of the text exactly when
+    the rest of the text, ignorable characters removed, is the expected number of '=' -/
+theorem skipPadding_iff {us ign} (hd : IgnDisj us ign) : ∀ (t : Bytes) (pos k : Nat),
+    ((skipPadding ign t pos k).1 = 0 ∧
+      skipIgnored ign (t.drop ((skipPadding ign t pos k).2 - pos)) (skipPadding ign t pos k).2 = pos + t.length)
+    ↔ stripIgn us ign t = List.replicate k padChar
+  | t, pos, 0 => by
+    simp only [skipPadding_zero, Nat.sub_self, List.drop_zero, true_and, List.replicate_zero]
+    exact skipIgnored_iff hd t pos
+  | [], pos, k + 1 => by
+    simp [skipPadding, stripIgn_nil, List.replicate_succ]
+  | c :: r, pos, k + 1 => by
+    have hle1 := skipPadding_le ign r (pos + 1) k
+    have hle2 := skipPadding_le ign r (pos + 1) (k + 1)
+    by_cases hc : c = 61
+    · subst hc
+      have ih := skipPadding_iff hd r (pos + 1) k
+      have e : (skipPadding ign r (pos + 1) k).2 - pos = ((skipPadding ign r (pos + 1) k).2 - (pos + 1)) + 1 := by omega
+      simp only [skipPadding, if_true]
+      rw [e, List.drop_succ_cons, List.length_cons, show pos + (r.length + 1) = pos + 1 + r.length by omega, ih]
+      rw [show (61 : UInt8) = padChar from rfl, stripIgn_pad, List.replicate_succ]
+      simp
+    · by_cases hi : inIgnore ign c = true
+      · have ih := skipPadding_iff hd r (pos + 1) (k + 1)
+        have e : (skipPadding ign r (pos + 1) (k + 1)).2 - pos = ((skipPadding ign r (pos + 1) (k + 1)).2 - (pos + 1)) + 1 := by omega
+        simp only [skipPadding, hc, if_false, hi, Bool.not_true, Bool.false_eq_true]
+        rw [e, List.drop_succ_cons, List.length_cons, show pos + (r.length + 1) = pos + 1 + r.length by omega, ih,
+          stripIgn_ign hd r hi]
+      · have hi' : inIgnore ign c = false := by simpa using hi
+        simp only [skipPadding, hc, if_false, hi', Bool.not_false, if_true]
+        rw [stripIgn_notign r hi', List.replicate_succ]
+        simp [hc, padChar]
+
+
+/-- everything `sodium_base642bin` does after the main loop -/
+def finish (b64 : Bytes) (ign : Option Bytes) (wantEnd : Bool) (v : UInt32) (l : B64Loop) : DecResult :=
+  let bad := l.accLen > 4 ∨ (l.acc &&& ((1 <<< (UInt32.ofNat l.accLen)) - 1)) ≠ 0
+  let s1 : Int32 × Nat :=
+    if bad then (-1, l.pos)
+    else if l.ret = 0 ∧ !isNoPad v then skipPadding ign (b64.drop l.pos) l.pos (l.accLen / 2)
+    else (l.ret, l.pos)
+  let pos2 := if s1.1 ≠ 0 then s1.2 else (if ign.isSome then skipIgnored ign (b64.drop s1.2) s1.2 else s1.2)
+  let binPos := if s1.1 ≠ 0 then 0 else l.bin.length
+  let ret2 : Int32 := if !wantEnd && pos2 ≠ b64.length then -1 else s1.1
+  ⟨ret2, binPos, pos2, l.bin⟩
+
+theorem base642bin_eq (cap : Nat) (b64 : Bytes) (ign : Option Bytes) (wantEnd : Bool) (v : UInt32)
+    (hv : variantOk v = true) :
+    sodium_base642bin cap b64 ign wantEnd v = .res (finish b64 ign wantEnd v (b64Loop v cap ign b64 0 [] 0 0)) := by
+  simp [sodium_base642bin, finish, hv]
+
+theorem finish_ret (b64 ign wantEnd v) (l : B64Loop) (h : l.ret ≠ 0) : (finish b64 ign wantEnd v l).rc ≠ 0 := by
+  simp only [finish, h, false_and, if_false]
+  split <;> split <;> simp_all
+
+theorem finish_bad (b64 ign wantEnd v) (l : B64Loop) (h : badTail l.acc l.accLen) :
+    (finish b64 ign wantEnd v l).rc ≠ 0 := by
+  unfold badTail at h
+  simp only [finish, h, if_true]
+  split <;> simp
+
+theorem skipIgnored_isSome (ign : Option Bytes) (t : Bytes) (pos : Nat) :
+    (if ign.isSome then skipIgnored ign t pos else pos) = skipIgnored ign t pos := by
+  cases ign
+  · simp [skipIgnored_none]
+  · simp
+
+/-- the result after a loop that ended without error and with a canonical tail -/
+theorem finish_good (b64 ign wantEnd v) (l : B64Loop) (h1 : l.ret = 0) (h2 : ¬ badTail l.acc l.accLen) :
+    finish b64 ign wantEnd v l =
+      let s1 := skipPadding ign (b64.drop l.pos) l.pos (if isNoPad v then 0 else l.accLen / 2)
+      let pos2 := if s1.1 ≠ 0 then s1.2 else skipIgnored ign (b64.drop s1.2) s1.2
+      ⟨if !wantEnd && pos2 ≠ b64.length then -1 else s1.1, if s1.1 ≠ 0 then 0 else l.bin.length, pos2, l.bin⟩ := by
+  unfold badTail at h2
+  simp only [finish, h2, if_false, h1, true_and, skipIgnored_isSome]
+  cases isNoPad v
+  · simp
+  · simp [skipPadding_zero]
+
+
+/-- model side of the strictness theorem, in terms of the scan of the text -/
+theorem base642bin_iff (cap : Nat) (b64 : Bytes) (ign : Option Bytes) (v : UInt32) (hv : variantOk v = true)
+    (hd : IgnDisj (isUrlsafe v) ign) (out : Bytes) :
+    sodium_base642bin cap b64 ign false v = .res ⟨0, out.length, b64.length, out⟩ ↔
+      (ungroup (scan (isUrlsafe v) ign b64).1 = out ∧ out.length ≤ cap ∧ canon (scan (isUrlsafe v) ign b64).1 ∧
+        stripIgn (isUrlsafe v) ign (scan (isUrlsafe v) ign b64).2 =
+          List.replicate (if isNoPad v then 0 else tlen (scan (isUrlsafe v) ign b64).1 / 2) padChar) := by
+  rw [base642bin_eq _ _ _ _ _ hv]
+  generalize hs : scan (isUrlsafe v) ign b64 = sc
+  have hlt : ∀ x ∈ sc.1, x < 64 := by rw [← hs]; exact scan_lt _ _ _
+  have hlen : sc.2.length ≤ b64.length := by rw [← hs]; exact scan_rest_len _ _ _
+  have hdrop : b64.drop (b64.length - sc.2.length) = sc.2 := by rw [← hs]; exact scan_rest_drop _ _ _
+  obtain ⟨acc', hf, hbad⟩ := dfold_spec sc.1 [] 0 hlt
+  by_cases hcap : (ungroup sc.1).length ≤ cap
+  · have hl := b64Loop_ok v cap ign b64 0 [] 0 0 (by rw [hs, hf]; simpa using hcap)
+    rw [hs, hf] at hl
+    simp only [List.append_nil, List.reverse_reverse, Nat.zero_add] at hl
+    rw [hl]
+    by_cases hc : canon sc.1
+    · have hnb : ¬ badTail acc' (tlen sc.1) := fun h => hbad.mp h hc
+      rw [finish_good _ _ _ _ _ rfl hnb]
+      simp only [hdrop]
+      have hiff := skipPadding_iff hd sc.2 (b64.length - sc.2.length) (if isNoPad v then 0 else tlen sc.1 / 2)
+      have hle := skipPadding_le ign sc.2 (b64.length - sc.2.length) (if isNoPad v then 0 else tlen sc.1 / 2)
+      generalize skipPadding ign sc.2 (b64.length - sc.2.length) (if isNoPad v then 0 else tlen sc.1 / 2) = s1
+        at hiff hle ⊢
+      have hdd : b64.drop s1.2 = sc.2.drop (s1.2 - (b64.length - sc.2.length)) := by
+        calc b64.drop s1.2 = b64.drop ((b64.length - sc.2.length) + (s1.2 - (b64.length - sc.2.length))) := by
+              congr 1; omega
+          _ = (b64.drop (b64.length - sc.2.length)).drop (s1.2 - (b64.length - sc.2.length)) := List.drop_drop.symm
+          _ = _ := by rw [hdrop]
+      rw [← hiff, hdd]
+      simp only [B64Dec.res.injEq, DecResult.mk.injEq, Bool.not_false, Bool.true_and]
+      constructor
+      · rintro ⟨h1, h2, h3, h4⟩
+        by_cases hz : s1.1 = 0
+        · simp only [hz, ne_eq, not_true_eq_false, if_false] at h3 h1
+          refine ⟨h4, by rw [← h4]; exact hcap, hc, hz, ?_⟩
+          rw [h3]; omega
+        · exfalso
+          simp only [ne_eq, hz, not_false_eq_true, if_true] at h1
+          split at h1
+          · exact absurd h1 (by decide)
+          · exact hz h1
+      · rintro ⟨h4, _, _, hz, h3⟩
+        have e : b64.length - sc.2.length + sc.2.length = b64.length := by omega
+        simp only [hz, ne_eq, not_true_eq_false, if_false, h3, e, decide_false, Bool.false_eq_true, h4, and_self]
+    · have hb : badTail acc' (tlen sc.1) := hbad.mpr hc
+      have := finish_bad b64 ign false v ⟨0, b64.length - sc.2.length, ungroup sc.1, acc', tlen sc.1⟩ hb
+      constructor
+      · intro h
+        simp only [B64Dec.res.injEq] at h
+        rw [h] at this
+        exact absurd rfl this
+      · rintro ⟨_, _, h, _⟩
+        exact absurd h hc
+  · have hl := b64Loop_fail v cap ign b64 0 [] 0 0 (Nat.zero_le _) (by rw [hs, hf]; simpa using hcap)
+    have := finish_ret b64 ign false v _ (by rw [hl]; decide)
+    constructor
+    · intro h
+      simp only [B64Dec.res.injEq] at h
+      rw [h] at this
+      exact absurd rfl this
+    · rintro ⟨h1, h2, _⟩
+      rw [← h1] at h2
+      exact absurd h2 hcap
+
+
+/-! #### specification side -/
+
+theorem stripIgn_scan {us ign} (hd : IgnDisj us ign) : ∀ t : Bytes,
+    stripIgn us ign t = (scan us ign t).1.map (sextetChar us) ++ stripIgn us ign (scan us ign t).2
+  | [] => by simp [scan, stripIgn_nil]
+  | c :: r => by
+    have ih := stripIgn_scan hd r
+    rcases charSextet_cases us c with h | ⟨x, h⟩
+    · rw [scan_none r h]
+      by_cases hi : inIgnore ign c = true
+      · simp only [hi, if_true]
+        rw [stripIgn_ign hd r hi, ih]
+      · simp [hi]
+    · rw [scan_some r h, stripIgn_alpha r h, ih]
+      simp [sextetChar_of_charSextet h]
+
+/-- a text that is empty or starts with a non-alphabet character -/
+def StopsAlpha (us : Bool) (b : Bytes) : Prop := ∀ c r, b = c :: r → charSextet us c = none
+
+theorem split_unique {us : Bool} : ∀ (A A' : List Nat) (B B' : Bytes), (∀ x ∈ A, x < 64) → (∀ x ∈ A', x < 64) →
+    StopsAlpha us B → StopsAlpha us B' →
+    A.map (sextetChar us) ++ B = A'.map (sextetChar us) ++ B' → A = A' ∧ B = B'
+  | [], [], B, B', _, _, _, _, h => ⟨rfl, by simpa using h⟩
+  | [], a' :: A', B, B', _, h2, hB, _, h => by
+    have := hB _ _ (by simpa using h)
+    rw [charSextet_sextetChar (h2 a' (by simp))] at this
+    cases this
+  | a :: A, [], B, B', h1, _, _, hB', h => by
+    have := hB' _ _ (by simpa using h.symm)
+    rw [charSextet_sextetChar (h1 a (by simp))] at this
+    cases this
+  | a :: A, a' :: A', B, B', h1, h2, hB, hB', h => by
+    simp only [List.map_cons, List.cons_append, List.cons.injEq] at h
+    have ha := charSextet_sextetChar (us := us) (h1 a (by simp))
+    rw [h.1, charSextet_sextetChar (h2 a' (by simp))] at ha
+    obtain ⟨e1, e2⟩ := split_unique A A' B B' (fun x hx => h1 x (by simp [hx])) (fun x hx => h2 x (by simp [hx]))
+      hB hB' h.2
+    simp only [Option.some.injEq] at ha
+    exact ⟨by rw [ha, e1], e2⟩
+
+theorem stopsAlpha_replicate (us : Bool) (k : Nat) : StopsAlpha us (List.replicate k padChar) := by
+  intro c r h
+  cases k with
+  | zero => simp at h
+  | succ k =>
+    simp only [List.replicate_succ, List.cons.injEq] at h
+    rw [← h.1]; exact charSextet_pad us
+
+theorem stopsAlpha_scan (us ign) (t : Bytes) : StopsAlpha us (stripIgn us ign (scan us ign t).2) := by
+  intro c r h
+  match hs : (scan us ign t).2 with
+  | [] => rw [hs] at h; simp [stripIgn_nil] at h
+  | d :: r' =>
+    obtain ⟨h1, h2⟩ := scan_rest_head us ign t d r' hs
+    rw [hs, stripIgn_notign r' h2] at h
+    simp only [List.cons.injEq] at h
+    rw [← h.1]; exact h1
+
+theorem padN_tlen (pad : Bool) (s : List Nat) (hc : canon s) :
+    (if pad then tlen s / 2 else 0) = padN pad (ungroup s).length := by
+  cases pad
+  · simp [padN]
+  · simp [tlen_padN s hc]
+
+theorem stripIgn_iff {us ign} (pad : Bool) (hd : IgnDisj us ign) (t out : Bytes) :
+    stripIgn us ign t = encode us pad out ↔
+      (ungroup (scan us ign t).1 = out ∧ canon (scan us ign t).1 ∧
+        stripIgn us ign (scan us ign t).2 = List.replicate (if pad then tlen (scan us ign t).1 / 2 else 0) padChar) := by
+  rw [stripIgn_scan hd t, encode_sextets]
+  constructor
+  · intro h
+    obtain ⟨e1, e2⟩ := split_unique _ _ _ _ (scan_lt us ign t) (sextets_lt out) (stopsAlpha_scan us ign t)
+      (stopsAlpha_replicate us _) h
+    obtain ⟨h1, h2⟩ := ungroup_sextets out
+    rw [e1]
+    refine ⟨h1, h2, ?_⟩
+    rw [padN_tlen pad _ h2, h1]; exact e2
+  · rintro ⟨h1, h2, h3⟩
+    rw [h3, padN_tlen pad _ h2, h1, ← h1, sextets_ungroup _ (scan_lt us ign t) h2]
+
+
+/-- strictness of `sodium_base642bin` without an end pointer -/
+theorem base642bin_strict (cap : Nat) (b64 : Bytes) (ign : Option Bytes) (v : UInt32) (hv : variantOk v = true)
+    (hd : IgnDisj (isUrlsafe v) ign) (out : Bytes) :
+    sodium_base642bin cap b64 ign false v = .res ⟨0, out.length, b64.length, out⟩ ↔
+      (stripIgn (isUrlsafe v) ign b64 = encode (isUrlsafe v) (!isNoPad v) out ∧ out.length ≤ cap) := by
+  rw [base642bin_iff cap b64 ign v hv hd out, stripIgn_iff (!isNoPad v) hd]
+  have e : (if isNoPad v then 0 else tlen (scan (isUrlsafe v) ign b64).1 / 2) =
+      (if (!isNoPad v) = true then tlen (scan (isUrlsafe v) ign b64).1 / 2 else 0) := by
+    cases isNoPad v <;> simp
+  rw [e]
+  constructor
+  · rintro ⟨h1, h2, h3, h4⟩; exact ⟨⟨h1, h3, h4⟩, h2⟩
+  · rintro ⟨⟨h1, h3, h4⟩, h2⟩; exact ⟨h1, h2, h3, h4⟩
+
+/-! #### round trip -/
+
+theorem scan_pads (us ign) (hne : inIgnore ign padChar = false) (k : Nat) :
+    scan us ign (List.replicate k padChar) = ([], List.replicate k padChar) := by
+  cases k with
+  | zero => simp [scan]
+  | succ k => rw [List.replicate_succ, scan_none _ (charSextet_pad us)]; simp [hne]
+
+theorem scan_encoded (us ign) (hne : inIgnore ign padChar = false) (k : Nat) : ∀ (s : List Nat), (∀ x ∈ s, x < 64) →
+    scan us ign (s.map (sextetChar us) ++ List.replicate k padChar) = (s, List.replicate k padChar)
+  | [], _ => by simpa using scan_pads us ign hne k
+  | x :: s, h => by
+    have ih := scan_encoded us ign hne k s (fun y hy => h y (by simp [hy]))
+    rw [List.map_cons, List.cons_append, scan_some _ (charSextet_sextetChar (h x (by simp))), ih]
+
+theorem skipPadding_pads (ign) : ∀ (k pos : Nat), skipPadding ign (List.replicate k padChar) pos k = (0, pos + k)
+  | 0, pos => by simp [skipPadding_zero]
+  | k + 1, pos => by
+    rw [List.replicate_succ]
+    simp only [skipPadding, padChar, if_true]
+    rw [show (61 : UInt8) = padChar from rfl, skipPadding_pads ign k (pos + 1)]
+    simp; omega
+
+theorem base642bin_roundtrip (bin : Bytes) (cap : Nat) (h : bin.length ≤ cap) (ign : Option Bytes) (wantEnd : Bool)
+    (v : UInt32) (hv : variantOk v = true) (hne : inIgnore ign padChar = false) :
+    sodium_base642bin cap (encode (isUrlsafe v) (!isNoPad v) bin) ign wantEnd v =
+      .res ⟨0, bin.length, encodedLen (!isNoPad v) bin.length, bin⟩ := by
+  rw [base642bin_eq _ _ _ _ _ hv, ← encode_len (isUrlsafe v) (!isNoPad v) bin]
+  generalize ht : encode (isUrlsafe v) (!isNoPad v) bin = t
+  have hsc : scan (isUrlsafe v) ign t = (sextets bin, List.replicate (padN (!isNoPad v) bin.length) padChar) := by
+    rw [← ht, encode_sextets]
+    exact scan_encoded _ _ hne _ _ (sextets_lt bin)
+  obtain ⟨hu, hc⟩ := ungroup_sextets bin
+  obtain ⟨acc', hf, hbad⟩ := dfold_spec (sextets bin) [] 0 (sextets_lt bin)
+  have hl := b64Loop_ok v cap ign t 0 [] 0 0 (by rw [hsc, hf, hu]; simpa using h)
+  have hdrop := scan_rest_drop (isUrlsafe v) ign t
+  have hlen := scan_rest_len (isUrlsafe v) ign t
+  rw [hsc] at hl hdrop hlen
+  simp only [hf, hu, List.append_nil, List.reverse_reverse, Nat.zero_add, List.length_replicate] at hl hdrop hlen
+  rw [hl, finish_good _ _ _ _ _ rfl (fun hb => hbad.mp hb hc)]
+  have hk : (if isNoPad v then 0 else tlen (sextets bin) / 2) = padN (!isNoPad v) bin.length := by
+    rw [← hu, ← padN_tlen _ _ hc, hu]
+    cases isNoPad v <;> simp
+  simp only [hdrop, hk, skipPadding_pads]
+  have e : t.length - padN (!isNoPad v) bin.length + padN (!isNoPad v) bin.length = t.length := by omega
+  simp [e, skipIgnored]
+
 
 end Sodium
